@@ -223,9 +223,21 @@ func entryMustSet(prog *Program, pk *packages.Package, typ, entry string, stopAt
 	return set, fd, nil
 }
 
-func ruleEntryParity(prog *Program, rep *Report) {
+// ruleEntryParity takes an optional scope: the reusable types ("oj.Writer", ...) the calling property is about.
+func ruleEntryParity(prog *Program, rep *Report, scope ...string) {
 	rep.Rules = append(rep.Rules, "C-parity: the public entries of one reusable type (Parse/ParseReader, Validate/ValidateReader, Parse/Load, MustJSON/MustWrite, MustSEN/MustWrite) definitely assign the same receiver fields on every path to the start of the work (must-assignment over if/else and switch; early returns ignored); a field reset in one entry and not in its sibling is a violation unless listed with a reason")
 	for _, g := range entryGroups {
+		if len(scope) > 0 {
+			in := false
+			for _, sc := range scope {
+				if sc == g.rel+"."+g.typ {
+					in = true
+				}
+			}
+			if !in {
+				continue
+			}
+		}
 		pk := prog.Pkg(g.rel)
 		if pk == nil {
 			rep.Errorf("package %s not loaded", g.rel)
